@@ -37,6 +37,7 @@ def install_gdb_stub():
         pass
     for k in (Thread, Value, Frame, Breakpoint, Command):
         k.__module__ = 'gdb'
+        k.__qualname__ = k.__name__
     gdb.Thread, gdb.Value, gdb.Frame = Thread, Value, Frame
     def selected_thread(): raise RuntimeError('gdb stub')
     def execute(command): raise RuntimeError('gdb stub')
